@@ -11,6 +11,7 @@ import time
 import traceback
 
 from vf import monitors
+from vf import core as _core
 from vf.core import BudgetExceeded
 
 REPO = os.environ.get("VF_REPO", "/repo")
@@ -91,6 +92,7 @@ def run_cases(check: str, tier: str, seed: int, cases: list[dict], out) -> None:
         ctx.audit.reset()
         ctx.audit.enabled = True
         ctx.inflate.reset()
+        _core.LIVE_PROXIES.clear()
         if ctx.steps is not None:
             ctx.steps.begin_case(case.get("step_budget", default_budget))
         if use_mem:
